@@ -4,7 +4,8 @@ From FlacBase Require Import Res.
 From FlacCodec Require Ast Stream Header Wf Enc Enc_proofs.
 From FlacWriters Require Import Meta Params Finalize Writers.
 From FlacWriters Require Import Params_proofs.
-From FlacE2E Require Import Bridge E2E SampleE2E Success.
+From FlacReaders Require Readers Spec Ser RNum Seek.
+From FlacE2E Require Import Bridge E2E SampleE2E Success ReadBridge ReadersE2E.
 Import ListNotations.
 Open Scope N_scope.
 
@@ -29,7 +30,8 @@ Theorem C01_end_to_end_encoder : forall o L md5, (forall l, length (md5 l) = 16%
   N.of_nat (length bl) <= FlacCodec.Header.MAX_FRAME_NUMBER + 1 ->
   FlacCodec.Enc_proofs.blocks_samples bl < 2 ^ 64 ->
   FlacCodec.Stream.dec_stream (f_stream f) =
-    Some (conv_si (f_si f), map FlacCodec.Stream.interleave_frame bl, FlacCodec.Stream.EndEof).
+    Some (conv_si (f_si f), map FlacCodec.Stream.interleave_frame bl, FlacCodec.Stream.EndEof) /\
+  FlacCodec.Ast.si_total (conv_si (f_si f)) = FlacCodec.Enc_proofs.blocks_samples bl.
 Proof. intros. eapply e2e_encoder; eauto. Qed.
 
 (* FlacSampleWriter (any chunking of the writes): its run drives the Encoder only through those calls, and the
@@ -61,7 +63,11 @@ Theorem C01_end_to_end_samples : forall o L md5, (forall l, length (md5 l) = 16%
     FlacCodec.Stream.dec_stream (f_stream f) =
       Some (conv_si (f_si f), map FlacCodec.Stream.interleave_frame blocks, FlacCodec.Stream.EndEof) /\
     concat (map FlacCodec.Stream.interleave_frame blocks) =
-      firstn (N.to_nat ch * (length (concat chunks) / N.to_nat ch)) (concat chunks).
+      firstn (N.to_nat ch * (length (concat chunks) / N.to_nat ch)) (concat chunks) /\
+    Forall (FlacCodec.Enc_proofs.block_ok (conv_si (f_si f)) bps) blocks /\
+    FlacCodec.Enc_proofs.short_only_last (conv_si (f_si f)) blocks /\
+    FlacCodec.Ast.si_total (conv_si (f_si f)) = FlacCodec.Enc_proofs.blocks_samples blocks /\
+    FlacCodec.Ast.si_channels (conv_si (f_si f)) = ch /\ FlacCodec.Enc_proofs.blocks_samples blocks < 2 ^ 36.
 Proof. intros. eapply e2e_sample_pcm; eauto. Qed.
 
 (* C01 for FlacSampleWriter, complete: hypotheses on the input only.  For well-formed options, a writer the
@@ -84,6 +90,34 @@ Theorem C01_sample_writer_lossless : forall o L md5, (forall l, length (md5 l) =
       firstn (N.to_nat ch * (length (concat chunks) / N.to_nat ch)) (concat chunks).
 Proof. exact sample_writer_lossless. Qed.
 
+(* C01 down to the reader front-ends: hypotheses on the input only.  The run succeeds; the stream decoder model decodes
+   the file to the blocks; the readers area's abstract file of those blocks is valid (C06/C07's hypothesis) and its PCM
+   is exactly the whole PCM frames written; hence the FlacSampleReader model delivers exactly those samples, once and
+   in order, under EVERY seek-free history of read / fill_buf / consume / next calls (C07; the byte and channel
+   readers deliver pcm_bytes / chan_pcm of the same file by C07_byte_reader / C07_channel_reader) *)
+Theorem C01_written_samples_are_read : forall o L md5, (forall l, length (md5 l) = 16%nat) ->
+  forall p rate bps wo ch total w chunks e rp,
+  options_wf wo ->
+  sample_new p [] wo rate bps ch total = Ok w ->
+  forallb (FlacCodec.Wf.fits bps) (concat chunks) = true ->
+  let W := N.of_nat (length (concat chunks)) / ch in
+  let written := firstn (N.to_nat ch * (length (concat chunks) / N.to_nat ch)) (concat chunks) in
+  1 <= W -> N.of_nat (length (concat chunks)) < 2 ^ 36 ->
+  match total with Some T => T = ch * W | None => True end ->
+  exists f blocks,
+    sample_run (encB o L rate bps) md5 p w chunks = Ok f /\
+    FlacCodec.Stream.dec_stream (f_stream f) =
+      Some (conv_si (f_si f), map FlacCodec.Stream.interleave_frame blocks, FlacCodec.Stream.EndEof) /\
+    let F := file_of_blocks blocks ch bps (Some (FlacCodec.Enc_proofs.blocks_samples blocks)) e rp in
+    FlacReaders.Spec.valid_file F /\ FlacReaders.Spec.pcm F = written /\
+    forall ops, FlacReaders.Spec.no_sseek ops -> Forall FlacReaders.Spec.sop_ok (snd (FlacReaders.Seek.sample_run F ops)) ->
+      let atr := map (FlacReaders.Spec.abs_s F) (snd (FlacReaders.Seek.sample_run F ops)) in
+      Forall (FlacReaders.Spec.cur_ok written) atr /\
+      FlacReaders.Spec.chained 0 atr (FlacReaders.Spec.spos F (fst (FlacReaders.Seek.sample_run F ops))) /\
+      FlacReaders.Spec.exactly_once written atr.
+Proof. exact written_samples_are_read. Qed.
+
+Print Assumptions C01_written_samples_are_read.
 Print Assumptions C01_sample_writer_lossless.
 Print Assumptions C01_written_metadata_is_read.
 Print Assumptions C01_end_to_end_samples.
